@@ -160,6 +160,23 @@ func (sc *Scope) eval(e *Expr) (tv, error) {
 			return tv{}, err
 		}
 		a, b = sc.unify(a, b)
+		// a nil branch takes the type (and the nil representation) of the other branch: the result must not be nil-typed,
+		// or a comparison with it would degenerate into a comparison with nil
+		nilOf := func(t types.Type) tv {
+			if eng.sortOf(t) == "LV" {
+				return tv{sv{"GoNil"}, t}
+			}
+			return tv{sv{"0"}, t}
+		}
+		if a.typ == tNil && b.typ != tNil {
+			if _, isS := b.sym.(sv); isS {
+				a = nilOf(b.typ)
+			}
+		} else if b.typ == tNil && a.typ != tNil {
+			if _, isS := a.sym.(sv); isS {
+				b = nilOf(a.typ)
+			}
+		}
 		at, ok1 := a.sym.(sv)
 		bt, ok2 := b.sym.(sv)
 		if !ok1 || !ok2 {
